@@ -64,6 +64,14 @@ def body_chain(s, start, steps, tolerant):
             fail('sub_context raised %s' % type(e).__name__)
         after = {f: v for f, v in ps.get_fields().items() if f != 'latex_context'}
         require(before == after, 'sub_context() altered the state it was called on')
+        # the fields of the derived state are those of a state constructed directly from the parent's fields updated with
+        # the keyword arguments (a None argument means None / the default list, not "unchanged")
+        want = dict(ps.get_fields())
+        want.update(copy.deepcopy(MENU[k]))
+        direct = ParsingState(**want).get_fields()
+        got = child.get_fields()
+        require(all(got[f] == direct[f] for f in got if f not in ('latex_context', 's')),
+                'sub_context() yields field values different from a state constructed directly with the updated fields')
         ps = child
     fields = ps.get_fields()
     fresh = ParsingState(**copy.deepcopy(fields))
